@@ -852,7 +852,7 @@ func (ex *Exec) applyContract(st *State, c *Contract, fn *types.Func, recv *Val,
 	bindResults(sc, fn, results)
 	// ghost effects of the callee
 	for _, cl := range c.Clauses {
-		if cl.Kind != "ghostupdate" || cl.Expr == nil {
+		if cl.Kind != "ghostupdate" || cl.Expr == nil || !ex.clauseActive(cl) {
 			continue
 		}
 		for _, item := range splitTopLevel(cl.LetName, ',') {
